@@ -1071,7 +1071,7 @@ impl Property for C21 {
         ]
     }
     fn cases(&self, tier: Tier) -> u32 {
-        tier.pick(24_000, 1_200_000)
+        tier.pick(60_000, 3_000_000)
     }
     fn strategy(&self, _tier: Tier) -> BoxedStrategy<Input> {
         prop_oneof![
